@@ -24,6 +24,10 @@ func init() {
 				Old: "\t} else if m.faces[f] {\n\t\treturn\n\t}\n\n\tuniqueVertices(f, func(p Coord3D) {\n\t\tv2f.Append(p, f)", New: "\t}\n\n\tuniqueVertices(f, func(p Coord3D) {\n\t\tv2f.Append(p, f)", Rule: "MI.DEDUP", Expect: "Add"},
 			{Name: "a mesh operation deletes faces behind the index", File: "model3d/mesh_ops.go",
 				Old: "func (m *Mesh) Blur(", New: "func (m *Mesh) dropFace(t *Triangle) {\n\tdelete(m.faces, t)\n}\n\nfunc (m *Mesh) Blur(", Rule: "MI.WRITERS", Expect: "dropFace"},
+			{Name: "mcSearch moves vertices without resetting the vertex index", File: "model3d/mc.go",
+				Old: "\tmesh.vertexToFace = atomic.Value{}\n", New: "\t_ = atomic.Value{}\n", Rule: "MI.INPLACE", Expect: "mcSearch"},
+			{Name: "FlattenBase leaves the old key in the index", File: "model3d/mesh_ops.go",
+				Old: "\t\tv2t.Store(newC, v2t.Value(c))\n\t\tv2t.Delete(c)\n", New: "\t\tv2t.Store(newC, v2t.Value(c))\n", Rule: "MI.INPLACE", Expect: "FlattenBase"},
 		},
 		Run: func(c *Ctx) {
 			pkgs := append(c.libPkgs()[:2:2], c.fixturePkg("fm"))
@@ -40,6 +44,10 @@ func init() {
 			c.floor("MI.OWNER", 2)
 			c.floor("MI.DEDUP", 2)
 			c.floor("MI.RECV", 20)
+			c.runInPlace("MI.INPLACE", "model3d", nil)
+			c.runInPlace("MI.INPLACE", "model2d", nil)
+			c.runInPlace("MI.INPLACE", "model3d", c.fixturePkg("fm"))
+			c.floor("MI.INPLACE", 4)
 		},
 	})
 }
